@@ -1,4 +1,6 @@
 # -*- coding: utf-8 -*-
+from copy import deepcopy
+
 import numpy as np
 import pandas as pd
 
@@ -51,6 +53,9 @@ class OnlineEnsembleForecaster(EnsembleForecaster):
         self._set_fh(fh)
         names, forecasters = self._check_forecasters()
         self.weights = np.ones(len(forecasters)) / len(forecasters)
+        # the weighting algorithm learns in `update`: work on a private copy, so that
+        # a new fit starts afresh and the constructor argument stays as passed
+        self.ensemble_algorithm_ = deepcopy(self.ensemble_algorithm)
         self._fit_forecasters(forecasters, y, X, fh)
         self._is_fitted = True
         return self
@@ -70,7 +75,7 @@ class OnlineEnsembleForecaster(EnsembleForecaster):
         estimator_predictions = np.column_stack(self._predict_forecasters(fh, X))
         y = np.array(y)
 
-        self.ensemble_algorithm.update(estimator_predictions.T, y)
+        self.ensemble_algorithm_.update(estimator_predictions.T, y)
 
     def update(self, y, X=None, update_params=False):
         """Update fitted paramters and performs a new ensemble fit.
@@ -88,7 +93,7 @@ class OnlineEnsembleForecaster(EnsembleForecaster):
         self.check_is_fitted()
         self._update_y_X(y, X)
 
-        if len(y) >= 1 and self.ensemble_algorithm is not None:
+        if len(y) >= 1 and self.ensemble_algorithm_ is not None:
             self._fit_ensemble(y, X)
 
         for forecaster in self.forecasters_:
@@ -143,8 +148,8 @@ class OnlineEnsembleForecaster(EnsembleForecaster):
     def _predict(self, fh=None, X=None, return_pred_int=False, alpha=DEFAULT_ALPHA):
         if return_pred_int:
             raise NotImplementedError()
-        if self.ensemble_algorithm is not None:
-            self.weights = self.ensemble_algorithm.weights
+        if self.ensemble_algorithm_ is not None:
+            self.weights = self.ensemble_algorithm_.weights
         return (pd.concat(self._predict_forecasters(fh, X), axis=1) * self.weights).sum(
             axis=1
         )
